@@ -219,6 +219,8 @@ struct C11 : Profile {
           std::string intact = rejected ? first_statements(text, ra->executed) : text;
           bloc::StringReader rd(intact); StepGuard g(20000); interactive_feed(*B.ctx, rd, *rb);
           if (rb->executed != ra->executed && rejected) { ++res.probes["interactive_prefix_unclear"]; res.trace_hash = ev.hash(); return res; }
+          // accepted by the disturbed context only thanks to a name an earlier rejected text had introduced (the twin refuses it): the two contexts are not comparable from here on
+          if (!rejected && rb->parse_error.kind == Outcome::PARSE_ERROR) { ++res.probes["accepted_only_with_names_of_rejected_text"]; res.trace_hash = ev.hash(); return res; }
         }
         ++res.probes["route_interactive"];
       }
